@@ -13,3 +13,5 @@ import EmbitModel.Props.C03
 import EmbitModel.Model.Sighash
 import EmbitModel.Spec.Consensus
 import EmbitModel.Props.C01
+import EmbitModel.Generated.Networks
+import EmbitModel.Model.Psbt
